@@ -271,3 +271,14 @@ Proof. vm_compute. left; reflexivity. Qed.
 Lemma bounded_drain_refuted :
   exists ps n sched p k j, In (ETreeWrite p k true (Some (S j))) (ttrace (trun bounded_waiter ps n sched)).
 Proof. exists bg_procs, 1%nat, sched_handover, 1%nat, 2%N, 0%nat. exact (proj1 bounded_drain_overlap). Qed.
+
+(* with at least two slots a read-only call gets one while the (one) mutating call in progress holds another, as
+   long as fewer than slots - 1 read-only calls are running; with one slot it does not *)
+Lemma runner_readonly_beside_mutator : forall slots readers,
+  runner_wf slots = true -> (readers + 1 < slots)%N -> runner_admits slots (1 + readers) = true.
+Proof.
+  intros slots readers _ H. unfold runner_admits. apply N.ltb_lt. lia.
+Qed.
+
+Lemma runner_one_slot_serialises : runner_wf 1 = false /\ runner_admits 1 1 = false.
+Proof. vm_compute. split; reflexivity. Qed.
